@@ -2,7 +2,9 @@ package props
 
 import (
 	"fmt"
+	"go/token"
 	"regexp"
+	"sort"
 	"strings"
 
 	"golang.org/x/tools/go/ssa"
@@ -319,6 +321,58 @@ func C03(p *ir.Program, r *report.R) {
 				c.Guards(csT+"reconstructLastCommit", "store LastCommit", s.Instr, G{"+2/3", "types.VoteSet.HasTwoThirdsMajority(*)"})
 			}
 		}
+		// updateToStatus moves the node to the next height. What it takes over from the finished height
+		// (the precommits that become LastCommit, the recover validator set that becomes LastValidators,
+		// the commit round) must be READ before the field is reset for the new height:
+		// the commit of H is verified at H+1 against status.LastValidators.
+		oldValueReadBeforeReset(c, p.Func("consensus", "ConsensusState.updateToStatus"), csT+"updateToStatus", "consensus/types", "RoundState",
+			map[string]string{
+				"Validators":  "recover mode stores the set that committed H as status.LastValidators",
+				"Votes":       "the precommits of the commit round become LastCommit",
+				"CommitRound": "selects those precommits",
+			})
+	}
+}
+
+// oldValueReadBeforeReset: in fn, no load of field T.f (f in fields) is reachable from a store to it.
+func oldValueReadBeforeReset(c C, fn *ssa.Function, fnName, rel, typ string, fields map[string]string) {
+	p, r := c.P, c.R
+	var names []string
+	for f := range fields {
+		names = append(names, f)
+	}
+	sort.Strings(names)
+	for _, f := range names {
+		fv := p.Field(rel, typ+"."+f)
+		var stores []ssa.Instruction
+		for _, s := range p.Stores(fv) {
+			if ir.EnclosingTop(s.Fn) == fn && s.Kind == "store" {
+				stores = append(stores, s.Instr)
+			}
+		}
+		var loads []ssa.Instruction
+		ir.Instrs(fn, func(in ssa.Instruction) {
+			u, ok := in.(*ssa.UnOp)
+			if !ok || u.Op != token.MUL {
+				return
+			}
+			if fa, ok := u.X.(*ssa.FieldAddr); ok && fieldVarOf(fa) == fv {
+				loads = append(loads, in)
+			}
+		})
+		if len(stores) == 0 || len(loads) == 0 {
+			r.Check("K2", fnName+"/old-value-read-before-reset:"+f, p.Pos(fn.Pos()), len(stores) > 0 && len(loads) > 0, fmt.Sprintf("the field is read (%d loads) and reset (%d stores) here: %s", len(loads), len(stores), fields[f]))
+			continue
+		}
+		bad := ""
+		for _, st := range stores {
+			for _, ld := range loads {
+				if found, _, _ := ir.FindPath(ir.PathQuery{From: ir.At(st), Target: func(x ssa.Instruction) bool { return x == ld }}); found {
+					bad = fmt.Sprintf("the load at %s can run after the reset at %s", p.InstrPos(ld), p.InstrPos(st))
+				}
+			}
+		}
+		r.Check("K2", fnName+"/old-value-read-before-reset:"+f, p.InstrPos(stores[0]), bad == "", fields[f]+": every read of the finished height's value happens before the field is reset. "+bad)
 	}
 }
 
@@ -367,7 +421,6 @@ func quorumRules(c C) {
 		}
 	}
 }
-
 
 // verifyCommitTally: the commit verification every consumer relies on (validateBlock for C02, fast
 // sync and the agreement argument for C01, C03 itself): each slot's precommit is checked against the
